@@ -131,14 +131,16 @@ def main(verbose=False):
     negs = getattr(cases, 'NEGATIVE', {})
     for (rel, qual), c in negs.items():
         # a FALSE contract: CPython must refute it and pyvc must leave a postcondition unproved
+        if c.get('assumed'):
+            continue                    # a helper known only through its (assumed) contract
         eng = engine.Engine(repo, dict(negs), {})
         try:
-            obs = eng.verify(rel, qual, contract=c)
+            obs = eng.verify(rel, qual.split('#')[0], contract=c)
             solve.discharge(obs)
-            proved_all = all(o.verdict == 'proved' for o in obs if o.kind == 'post')
+            proved_all = all(o.verdict == 'proved' for o in obs)
         except engine.Unsupported:
             proved_all = False
-        nat = native_check(getattr(cases, qual), c, rnd)
+        nat = native_check(getattr(cases, qual.split('#')[0]), c, rnd)
         status = 'ok'
         if nat is None:
             status = 'negative case is not false natively: fix the case'
@@ -147,8 +149,8 @@ def main(verbose=False):
         if status != 'ok':
             bad += 1
         if verbose or status != 'ok':
-            print('CONFORMANCE {:14s} negative  {}'.format(qual, status))
-    print('CONFORMANCE: {} cases, {} obligations, {} negative cases, {} failing'.format(len(cases.CONTRACTS), total_ob, len(negs), bad))
+            print('CONFORMANCE {:22s} negative  {}'.format(qual, status))
+    print('CONFORMANCE: {} cases, {} obligations, {} negative cases, {} failing'.format(len(cases.CONTRACTS), total_ob, sum(1 for c in negs.values() if not c.get('assumed')), bad))
     return bad
 
 
